@@ -57,6 +57,32 @@ CLAIMS["C19"] = ("other", "panic-site reachability + delegation (who-may-call) r
     "of the same map. Not decided: serialise/deserialise round-trip equality and 'same key set as sequential insertion' (run-time values).",
     "DESIGN.md §4 C19", TRUST + " serde/rayon adaptor internals are outside the analysis.")
 
+CLAIMS["C01"] = ("other", "MIR path rules: lock-region dataflow, edge dominance, must-pass-through, delegation rule",
+    "Clauses only; linearizability of histories itself is NOT decided (no static argument in reach bounds histories). Decided on every CFG "
+    "path of every writer: lock -> re-validate head by pointer identity -> only then mutate (11 lock regions, incl. no stale link reads "
+    "carried into a section); bin contents written only under the bin lock, on private nodes, by the empty-bin CAS or in teardown (tree "
+    "helpers lifted to call sites); both new bins published before the forwarding marker; writers that meet a forwarding marker retry in a "
+    "current table; set and pinned-reference facades are single delegations with guards paired to their collections. Each clause is a "
+    "necessary condition of the property: a tree violating it admits a concrete lost/duplicated/misattributed update.",
+    "DESIGN.md §4 C01", TRUST + " Lock regions are intraprocedural (guard locals); a lock handed across calls would be INCONCLUSIVE.")
+CLAIMS["C08"] = ("other", "MIR region rules (callback, read and write inside one validated lock region) + signature predicate",
+    "The lock-based atomicity argument of compute_if_present, on both arms and every path: callback only after head re-validation inside "
+    "the bin-lock region; the value it receives is loaded inside that region; the write applying its result happens before the guard is "
+    "dropped, for Some and for None; FnOnce bound on every facade. Together with C01-L1/L2 (all other writers of the bin take the same "
+    "lock) nothing can take effect on the key between the read and the write. Not decided: concrete racing histories.",
+    "DESIGN.md §4 C08", TRUST)
+CLAIMS["C13"] = ("other", "MIR argument-provenance and edge-dominance rules",
+    "Premises of compare-and-remove: retain hands replace_node the very value pointer the predicate saw (Some), retain_force hands None; "
+    "replace_node loads the stored pointer under the validated bin lock, compares by pointer identity, and unlink/retire are dominated "
+    "by the true edge; predicates run under no lock. Not decided: equality with std retain on concrete histories.",
+    "DESIGN.md §4 C13", TRUST)
+CLAIMS["C18"] = ("other", "MIR unwind-edge analysis (cleanup paths, drop flags by reaching definitions) + call-graph effect rule",
+    "Whole structural content: every callback that runs while a bin lock is (or may be) held unwinds through the Drop of a lock guard on "
+    "every cleanup path; no user code (directly or via callees) runs inside the manually released tree write-lock region; retain "
+    "predicates run under no lock; no shared write or retire precedes the callback inside its critical section, so a panic leaves the "
+    "entry as found. Not decided: observable state of later operations on concrete histories.",
+    "DESIGN.md §4 C18", TRUST)
+
 NOT_APPLICABLE = {
     "C02": "Quantifies over all operation sequences x hashers x capacities and asserts equality of run-time values (return values, "
            "contents) with a reference map; no path-, type- or call-graph-shaped clause carries it. Its only structural clause "
